@@ -525,7 +525,16 @@ func ruleCode39Assembly(c *Ctx) {
 			if hdr != nil {
 				flag, neg = notFirstFlag(hdr)
 			}
-			if hdr == nil || (posV == nil && flag == nil) {
+			if hdr != nil && posV == nil && flag == nil && fn == root && gapByLength(c, n, fn, hdr, gap, pat) {
+				// "not the first character" read off the list itself: it is empty exactly until the first
+				// pattern has been appended
+				body := hdr.Succs[0]
+				projectOK(n, fn, body, pat.Block())
+				patC := n.ReachCond(fn, body, pat.Block())
+				c.Check(R, "code39.EncodeWithColor/gap-iff", gap.Pos(), true, "a gap before every character but the first", "gap iff the list is not empty (fresh list, one non-empty pattern per character)")
+				c.Check(R, "code39.EncodeWithColor/gap-before-pattern", gap.Pos(), !dominatesInstr(pat, gap) && reachableFrom(gap.Block())[pat.Block()], "the gap precedes the character's pattern", "ok")
+				c.expectCond(R, "code39.EncodeWithColor/pattern-iff", pat.Pos(), patC, "ok")
+			} else if hdr == nil || (posV == nil && flag == nil) {
 				c.Undecided(R, "code39.EncodeWithColor/loop", pat.Pos(), "character loop not found")
 			} else {
 				if posV != nil {
@@ -678,4 +687,59 @@ func sliceLenWithin(p *Prog, fn *ssa.Function, v ssa.Value, least, most int64) b
 		}
 	}
 	return true
+}
+
+// gapByLength: the gap is appended exactly when the list is not empty - `if list.Len() > 0` directly
+// around the gap, on the way to the pattern -, the list is created empty in this function, nothing is
+// appended to it before the loop, and every character that is drawn appends its pattern after the gap
+// (the patterns are non-empty: S1 pins their nine modules). Then "list not empty" is "not the first
+// character drawn".
+func gapByLength(c *Ctx, n *Normer, fn *ssa.Function, hdr *ssa.BasicBlock, gap, pat *ssa.Call) bool {
+	list := gap.Common().Args[0]
+	if pat.Common().Args[0] != list {
+		return false
+	}
+	al, ok := list.(*ssa.Alloc)
+	if !ok || !al.Heap || namedTypeName(al.Type()) != "utils.BitList" {
+		return false
+	}
+	// uses before the loop: none that append
+	for _, r := range *al.Referrers() {
+		call, isCall := r.(*ssa.Call)
+		if !isCall || calleeOf(call) == nil || len(call.Common().Args) == 0 || call.Common().Args[0] != ssa.Value(al) {
+			continue
+		}
+		nm := calleeOf(call).Name()
+		if (nm == "AddBit" || nm == "AddByte" || nm == "AddBits" || nm == "SetBit") && !inLoopBody(hdr, call.Block()) && !hdr.Dominates(call.Block()) {
+			return false
+		}
+	}
+	// the guard: the gap's block is entered from a test of Len() > 0 (or != 0) on this list
+	gb := gap.Block()
+	if len(gb.Preds) != 1 {
+		return false
+	}
+	pred := gb.Preds[0]
+	iff, ok := pred.Instrs[len(pred.Instrs)-1].(*ssa.If)
+	if !ok || pred.Succs[0] != gb {
+		return false
+	}
+	bo, ok := iff.Cond.(*ssa.BinOp)
+	if !ok {
+		return false
+	}
+	lenCall, ok := bo.X.(*ssa.Call)
+	if !ok || calleeOf(lenCall) == nil || c.P.FuncName(calleeOf(lenCall)) != "utils.(*BitList).Len" || lenCall.Common().Args[0] != ssa.Value(al) {
+		return false
+	}
+	k, isK := constInt(bo.Y)
+	if !isK || k != 0 || (bo.Op != token.GTR && bo.Op != token.NEQ) {
+		return false
+	}
+	// the test is made for every character that is drawn, and gap and skip both lead to the pattern
+	body := hdr.Succs[0]
+	reachTest := n.ReachCond(fn, body, pred)
+	reachPat := n.ReachCond(fn, body, pat.Block())
+	eq, _ := CondEquivalent(reachTest, reachPat)
+	return eq && reachableFrom(gb)[pat.Block()] && pred.Dominates(pat.Block())
 }
